@@ -180,7 +180,7 @@ type H struct {
 	// distinct lattice points whose exact result is not representable: a rounding decision was needed /
 	// the result lies beyond the bound
 	nontrivRounding, nontrivOverflow int64
-	codecOn  bool
+	codecOn                          bool
 }
 
 func newH(f *core.Flags, r *core.Result) *H {
@@ -413,6 +413,9 @@ func (h *H) evalCase(op *opSpec, ra, rb *big.Int, alias bool) {
 		v, p, m := run(op.call, a, b)
 		trans++
 		nm, haveNM = outcome{v, p, m}, true
+		if h.countOn && rec != nil {
+			rec.add(op.name, ra, rb, nm.rec())
+		}
 		h.judge(op, op.name, op.grp, "", ra, rb, want, expectPanic, overflow, nm)
 		if !a.unchanged() || !b.unchanged() {
 			h.fail(op.grp+"."+sg+".operand-mutated", h.sig(op.name, op, ra, rb), "operand-mutated-by-non-mutating-form",
@@ -427,6 +430,9 @@ func (h *H) evalCase(op *opSpec, ra, rb *big.Int, alias bool) {
 			v, p, m := run(op.call, x, x)
 			trans++
 			h.vac("aliased_calls")
+			if h.countOn && rec != nil {
+				rec.add(op.name+"#aliased", ra, rb, outcome{v, p, m}.rec())
+			}
 			h.judge(op, op.name, op.grp, "aliased", ra, rb, want, expectPanic, overflow, outcome{v, p, m})
 			if !x.unchanged() {
 				h.fail(op.grp+"."+sg+".aliased-operand-mutated", h.sig(op.name, op, ra, rb)+"#aliased", "operand-mutated-by-non-mutating-form",
@@ -440,6 +446,9 @@ func (h *H) evalCase(op *opSpec, ra, rb *big.Int, alias bool) {
 		v, p, m := run(op.mut, a, b)
 		trans++
 		mo := outcome{v, p, m}
+		if h.countOn && rec != nil {
+			rec.add(op.mutName, ra, rb, mo.rec()+" recv="+a.cur().String())
+		}
 		h.judge(op, op.mutName, op.mutGrp, "", ra, rb, want, expectPanic, overflow, mo)
 		if haveNM && (nm.pan != mo.pan || (!nm.pan && nm.val.Cmp(mo.val) != 0)) {
 			h.fail(op.mutGrp+"."+sg+".differs-from-"+op.grp, h.sig(op.mutName, op, ra, rb), "mutating-and-non-mutating-forms-disagree",
@@ -464,6 +473,9 @@ func (h *H) evalCase(op *opSpec, ra, rb *big.Int, alias bool) {
 			v, p, m := run(op.mut, x, x)
 			trans++
 			h.vac("aliased_calls")
+			if h.countOn && rec != nil {
+				rec.add(op.mutName+"#aliased", ra, rb, outcome{v, p, m}.rec())
+			}
 			h.judge(op, op.mutName, op.mutGrp, "aliased", ra, rb, want, expectPanic, overflow, outcome{v, p, m})
 		}
 	}
